@@ -153,6 +153,20 @@ def write_rules(ck, agg, nn):
                         agg.add("R13.3", f, "the wait ends only on NETWORK_ACK or on the route timeout", False, "%s: wait loop left otherwise, returning %r" % (label, out.value))
                 if not acks and not waits and len(sends) > 1:
                     agg.add("R13.5", f, "no second transmission without NETWORK_ACK handling", False, "%s: %d transmissions" % (label, len(sends)))
+                # R13.7 "never blocking longer than the transmit ... timeouts allow": each transmission of a single frame loads the payload
+                # once and then re-sends it in at most one clock-bounded wait whose budget is tx_timeout
+                spans = [(a_.seq, min([b_.seq for b_ in first_res if b_.seq > a_.seq] or [10 ** 9])) for a_ in sends]
+                for lo_, hi_ in spans:
+                    rs = [e for e in out.trace if e.kind == "radio-send" and lo_ < e.seq < hi_]
+                    loads = [e for e in rs if e.data[0] == "send"]
+                    stand = [e for e in rs if e.data[0] not in ("send", "resend")]
+                    agg.add("R13.7", f_wtp, "a single frame is loaded once and re-sent within at most one tx_timeout wait", len(loads) <= 1 and len(stand) <= 1 and len(rs) == len(loads) + len(stand),
+                            "%s: one transmission of a single frame can take %d payload load(s) and %d timed re-send wait(s) - the sender blocks for a multiple of tx_timeout" % (label, len(loads), len(stand)),
+                            (stand[-1].node if stand else None))
+                    for e in stand:
+                        ll = as_lin(norm(e.data[1])) if e.data[1] is not None else None
+                        agg.add("R13.7", f_wtp, "the re-send wait is budgeted with tx_timeout", ll is not None and ll.terms == {"node.tx_timeout": 1} and ll.c == 0,
+                                "%s: the timed re-send wait is given %r" % (label, e.data[1]), e.node)
             cut = sum(1 for o in outs for e in o.trace if e.kind == "cut")
     agg.add("R13.2", f, "NETWORK_ACK emission is confined to routed traffic (send_type TX_ROUTED)", emit_types == {T.CONSTANTS["TX_ROUTED"]}, "emitting send types: %r" % sorted(emit_types))
     # TX_LOGICAL (user-chosen first hop) makes the first hop the 'destination' of this transmission, so its wait branch is unreachable by
@@ -210,6 +224,43 @@ def receive_rule(ck, agg, nn):
     return n
 
 
+def standby_rule(ck, agg):
+    """R13.7 (the wait itself): _tx_standby(t) takes one clock reading, adds t x 1 000 000 and re-sends only while the clock is below that"""
+    from ..interp_expr import deps_of
+    nn = net.NetNode(ck, "rf24_network", "RF24Network")
+    mix = ck.prog.cls("network.mixins", "NetworkMixin")
+    f = ck.prog.method(mix, "_tx_standby")
+    nn.model.opaque.pop(f.qualname, None)
+    st, node = nn.fresh()
+    net.set_rng(st, "budget", (0, None))
+    outs = nn.run(f, node, [Sym("budget", "int", rng=(0, None))], st, limits=Limits(max_paths=4000, loop_unroll=3, depth=8))
+    n = 0
+    for out in outs:
+        if out.kind != "return":
+            agg.add("R13.7", f, "_tx_standby() does not raise", False, "raises %s" % out.value.exc)
+            continue
+        n += 1
+        clocks = {e.data: e.seq for e in out.trace if e.kind == "clock"}
+        rs = [e for e in out.trace if e.kind == "radio-send"]
+        for e in rs:
+            # the re-send happens inside the time window: the latest decision before it compares a clock reading with budget*1e6 + earlier reading
+            prior = [c for c in out.trace if c.kind == "cond" and c.seq < e.seq and isinstance(c.data[1], tuple) and any(_clockish(x) for x in c.data[1])]
+            ok = False
+            if prior:
+                c = prior[-1]
+                dls = [x for x in c.data[1] if "budget" in net.base_deps(x)]
+                if dls:
+                    ll = as_lin(norm(dls[0]))
+                    raw = deps_of(norm(dls[0]))
+                    used = [k for k in raw if k in clocks]
+                    other = [k for k in raw if k not in clocks and k != "budget" and not (isinstance(k, tuple) and k and k[0] == "budget")]
+                    ok = ll is not None and ll.terms.get("budget") == 1000000 and not other and len(used) == 1 and all(clocks[k] < min(r.seq for r in rs) for k in used)
+            agg.add("R13.7", f, "every timed re-send is preceded by a test of the clock against start + budget x 1 000 000", ok,
+                    "a re-send happens without the deadline test (deadline must be the budget in ms x 1 000 000 added to one clock reading taken before the first re-send)", e.node)
+    agg.add("R13.7", f, "_tx_standby() has return paths (anchor)", n > 0, "no return path")
+    return n
+
+
 def run(ck):
     ck.explanation = (
         "Static analysis. R13.1: is_ack_type() is interpreted for all 256 message types: accepted set == 65..191 (and 193 excluded). R13.2/R13.3: "
@@ -219,7 +270,8 @@ def run(ck):
         "address, exactly one extra transmission addressed to the origin and routed by a second next-hop computation, and occurs only for "
         "TX_ROUTED; wait requires an acknowledged type, next hop != destination, occurs only for TX_NORMAL/TX_LOGICAL, ends only on a received "
         "NETWORK_ACK (True) or on a clock test whose deadline derives from route_timeout (False). R13.4: a received NETWORK_ACK is returned, never "
-        "queued or answered.")
+        "queued or answered. R13.7: every transmission of a single frame loads the payload once and is followed by at most one timed re-send wait "
+        "budgeted with tx_timeout; the wait itself re-sends only while the clock is below one earlier reading + budget x 1 000 000.")
     ck.not_decided = ["that the ACK arrives on air, and the wall-clock bound (nested forwarding inside the wait loop)"]
     agg = Agg(ck)
     nn = net.NetNode(ck, "rf24_network", "RF24Network")
@@ -227,7 +279,9 @@ def run(ck):
     n1 = ack_type_region(ck, agg)
     n2 = write_rules(ck, agg, nn)
     n3 = receive_rule(ck, agg, nn)
+    n4 = standby_rule(ck, agg)
     agg.flush()
+    ck.floor("R13.7", "timed re-send paths", n4, 2)
     ck.floor("R13.1", "message types", n1, 256)
     ck.floor("R13.2", "_write scenarios", n2, 35)
     ck.floor("R13.4", "receive scenarios", n3, 2)
